@@ -12,6 +12,7 @@
 //!   PANIC                                  the call panicked (case ends)
 //!   END
 mod gen;
+mod rel;
 
 use avt::parser::{
     AnsiMode, CtcOp, DecMode, EdScope, ElScope, Function, Parser, SgrOp, TbcScope, XtwinopsOp,
@@ -141,7 +142,7 @@ fn fmt_ansi_modes(ms: &[AnsiMode]) -> String {
 }
 
 /// a Line through the public accessors, in the same run-length format as the hook
-fn fmt_line(line: &Line, wrapped: bool, out: &mut String) {
+pub fn fmt_line(line: &Line, wrapped: bool, out: &mut String) {
     let mut runs: Vec<(usize, avt::Cell)> = Vec::new();
     for cell in line.cells() {
         match runs.last_mut() {
@@ -190,7 +191,7 @@ fn fmt_line(line: &Line, wrapped: bool, out: &mut String) {
 }
 
 /// wrapped flag of a public Line: only observable through Debug ('⏎' suffix)
-fn line_wrapped(line: &Line) -> bool {
+pub fn line_wrapped(line: &Line) -> bool {
     format!("{:?}", line).ends_with("⏎\"")
 }
 
@@ -254,6 +255,15 @@ impl<W: Write> Tracer<W> {
                                 return true;
                             }
                         }
+                    }
+                }
+                Op::Mark => {
+                    if !pending.is_empty() {
+                        self.chars(&pending);
+                        pending.clear();
+                        writeln!(self.w, "FN -").unwrap();
+                        self.state(&vt);
+                        self.steps += 1;
                     }
                 }
                 Op::Flush | Op::Resize(..) => {
@@ -375,8 +385,8 @@ impl<W: Write> Tracer<W> {
 }
 
 /// a case in the replay format: "cols rows limit" then one op per line
-pub fn write_case<W: Write>(w: &mut W, case: &Case) {
-    writeln!(w, "{} {} {}", case.cols, case.rows, case.limit.map_or(-1, |l| l as i64)).unwrap();
+pub fn write_case<W: Write>(w: &mut W, case: &Case, run_seed: u64) {
+    writeln!(w, "{} {} {} {}", case.cols, case.rows, case.limit.map_or(-1, |l| l as i64), run_seed).unwrap();
     for op in &case.ops {
         match op {
             Op::Str(s) => {
@@ -387,8 +397,38 @@ pub fn write_case<W: Write>(w: &mut W, case: &Case) {
                 writeln!(w, "{}", l).unwrap();
             }
             Op::Flush => writeln!(w, "L").unwrap(),
+            Op::Mark => writeln!(w, "M").unwrap(),
             Op::Resize(c, r) => writeln!(w, "R {} {}", c, r).unwrap(),
         }
+    }
+}
+
+fn run_seed(seed: u64, i: usize) -> u64 {
+    seed.wrapping_mul(7_919).wrapping_add(i as u64).wrapping_mul(0x2545F4914F6CDD1D) | 1
+}
+
+fn text_case(rng: &mut Rng) -> Case {
+    let cols = *rng.pick(&[1usize, 1, 2, 2, 3, 3, 4, 5, 7, 8, 10, 20, 80]);
+    let rows = *rng.pick(&[1usize, 1, 2, 3, 4, 6, 24]);
+    let text = rel::gen_text(rng, cols);
+    Case { cols, rows, limit: None, ops: vec![Op::Str(text)] }
+}
+
+fn run_rel<W: Write>(w: &mut W, mode: &str, i: usize, case: &Case, run_rng: &mut Rng, prof: &Profile, at_end: bool) {
+    match mode {
+        "text" => {
+            let mut text = String::new();
+            for op in &case.ops {
+                if let Op::Str(s) = op {
+                    text.push_str(s);
+                }
+            }
+            rel::run_text(w, i, run_rng, Some((case.cols, case.rows, text)));
+        }
+        "chunk" => rel::run_chunk(w, i, run_rng, case),
+        "stream" => rel::run_stream(w, i, run_rng, case),
+        "dump" => rel::run_dump(w, i, run_rng, case, prof, at_end),
+        _ => unreachable!(),
     }
 }
 
@@ -433,7 +473,7 @@ fn main() {
             let path = &args[2];
             let txt = std::fs::read_to_string(path).unwrap();
             let mut lines = txt.lines();
-            let hdr: Vec<i64> = lines.next().unwrap().split_whitespace().map(|t| t.parse().unwrap()).collect();
+            let hdr: Vec<i128> = lines.next().unwrap().split_whitespace().map(|t| t.parse().unwrap()).collect();
             let mut ops = Vec::new();
             for l in lines {
                 let t: Vec<&str> = l.split_whitespace().collect();
@@ -442,6 +482,7 @@ fn main() {
                         t[2..].iter().map(|x| char::from_u32(x.parse().unwrap()).unwrap()).collect(),
                     )),
                     Some("L") => ops.push(Op::Flush),
+                    Some("M") => ops.push(Op::Mark),
                     Some("R") => ops.push(Op::Resize(t[1].parse().unwrap(), t[2].parse().unwrap())),
                     _ => {}
                 }
@@ -452,11 +493,57 @@ fn main() {
                 limit: if hdr[2] < 0 { None } else { Some(hdr[2] as usize) },
                 ops,
             };
-            let mut tr = Tracer { w: out, steps: 0, panics: 0, truncated: 0, max_lines: 150 };
-            tr.run_case(0, &case, true);
-            tr.w.flush().unwrap();
+            let m = arg(&args, "--mode").unwrap_or("trace");
+            if m == "trace" {
+                let mut tr = Tracer { w: out, steps: 0, panics: 0, truncated: 0, max_lines: 150 };
+                tr.run_case(0, &case, true);
+                tr.w.flush().unwrap();
+            } else {
+                let prof = profile(arg(&args, "--profile").unwrap_or("general"));
+                let mut run_rng = Rng::new(hdr.get(3).map_or(12345, |x| *x as u64));
+                let mut w = out;
+                run_rel(&mut w, m, 0, &case, &mut run_rng, &prof, hdr.get(3).map_or(false, |x| *x == 0));
+                w.flush().unwrap();
+            }
         }
 
+
+        "text" | "chunk" | "stream" | "dump" => {
+            let seed: u64 = arg(&args, "--seed").map_or(1, |s| s.parse().unwrap());
+            let cases: usize = arg(&args, "--cases").map_or(100, |s| s.parse().unwrap());
+            let first: usize = arg(&args, "--first").map_or(0, |s| s.parse().unwrap());
+            let prof = profile(arg(&args, "--profile").unwrap_or("general"));
+            let mut w = out;
+            for i in first..first + cases {
+                let mut rng = Rng::new(seed.wrapping_mul(1_000_003).wrapping_add(i as u64));
+                let mut run_rng = Rng::new(run_seed(seed, i));
+                match mode {
+                    "text" => {
+                        let case = text_case(&mut rng);
+                        run_rel(&mut w, mode, i, &case, &mut run_rng, &prof, false);
+                    }
+                    _ => {
+                        let case = gen_case(&mut rng, &prof);
+                        run_rel(&mut w, mode, i, &case, &mut run_rng, &prof, false);
+                    }
+                }
+            }
+            w.flush().unwrap();
+            eprintln!("harness: mode={} profile={} seed={} cases={}", mode, prof.name, seed, cases);
+        }
+
+        "kf3" => {
+            // KF-C11-3 witness, implementation only (too wide for the list-based model):
+            // 70000 columns, 69990 'x' on the second row; dump; restore; compare public observables
+            let mut vt = Vt::builder().size(70000, 2).build();
+            let text: String = std::iter::once('\r').chain(std::iter::once('\n')).chain(std::iter::repeat('x').take(69990)).collect();
+            vt.feed_str(&text);
+            let d = vt.dump();
+            let mut re = Vt::builder().size(70000, 2).build();
+            re.feed_str(&d);
+            let same = vt.view() == re.view() && vt.cursor() == re.cursor();
+            println!("KF3 {} orig_cursor={:?} restored_cursor={:?}", if same { "passes" } else { "fails" }, vt.cursor(), re.cursor());
+        }
         "sweep" => {
             // exhaustive parser sweep: 14 states x every Unicode scalar value x backgrounds.
             // For each (background, state): feed CAN + intro, then one character c; record
@@ -552,9 +639,10 @@ fn main() {
             let i: usize = arg(&args, "--index").map_or(0, |s| s.parse().unwrap());
             let prof = profile(arg(&args, "--profile").unwrap_or("general"));
             let mut rng = Rng::new(seed.wrapping_mul(1_000_003).wrapping_add(i as u64));
-            let case = gen_case(&mut rng, &prof);
+            let m = arg(&args, "--mode").unwrap_or("trace");
+            let case = if m == "text" { text_case(&mut rng) } else { gen_case(&mut rng, &prof) };
             let mut w = out;
-            write_case(&mut w, &case);
+            write_case(&mut w, &case, run_seed(seed, i));
             w.flush().unwrap();
         }
         _ => {
